@@ -4,9 +4,15 @@ import (
 	"fmt"
 	"go/types"
 	"math"
+
+	"golang.org/x/tools/go/ssa"
 )
 
 type intrinsic func(m *Machine, caller *frame, args []value) value
+
+// notHandled: returned by an intrinsic that declines (e.g. concrete arguments): the real
+// function is interpreted instead.
+var notHandled value = &Native{kind: "not-handled"}
 
 var intrinsics map[string]intrinsic
 
@@ -118,6 +124,12 @@ func init() {
 			m.assume(tNot(cond))
 			return nil
 		},
+		ndPkg + "AllocStart": func(m *Machine, c *frame, a []value) value {
+			m.allocOn = true
+			m.allocBytes = conc(64, 0)
+			return nil
+		},
+		ndPkg + "AllocBytes": func(m *Machine, c *frame, a []value) value { return m.allocBytes },
 		ndPkg + "Freeze": func(m *Machine, c *frame, a []value) value {
 			m.freezeBelow = m.objSeq
 			m.frozen = true
@@ -231,6 +243,29 @@ func init() {
 				return conc(64, s.c&^(1<<63))
 			}
 			return fromTerm(tBV("bvand", s.sym, tConst(64, math.MaxInt64)))
+		},
+		"strconv.FormatInt": func(m *Machine, c *frame, a []value) value {
+			return m.formatDecimal(a[0], a[1], true)
+		},
+		"strconv.FormatUint": func(m *Machine, c *frame, a []value) value {
+			return m.formatDecimal(a[0], a[1], false)
+		},
+		"strconv.Itoa": func(m *Machine, c *frame, a []value) value {
+			return m.formatDecimal(a[0], conc(64, 10), true)
+		},
+		"strconv.AppendInt": func(m *Machine, c *frame, a []value) value {
+			s := m.formatDecimal(a[1], a[2], true)
+			if s == notHandled {
+				return s
+			}
+			return m.appendOp(a[0].(Slice), s, byteAppendSite{})
+		},
+		"strconv.AppendUint": func(m *Machine, c *frame, a []value) value {
+			s := m.formatDecimal(a[1], a[2], false)
+			if s == notHandled {
+				return s
+			}
+			return m.appendOp(a[0].(Slice), s, byteAppendSite{})
 		},
 		"sort.Slice": func(m *Machine, c *frame, a []value) value {
 			// insertion sort, exactly what sort.Slice does for n <= 12
@@ -446,3 +481,67 @@ func floatFn(f func(float64) float64) intrinsic {
 		return conc(64, math.Float64bits(f(math.Float64frombits(s.c))))
 	}
 }
+
+var pow10 = func() [20]uint64 {
+	var p [20]uint64
+	p[0] = 1
+	for i := 1; i < 20; i++ {
+		p[i] = p[i-1] * 10
+	}
+	return p
+}()
+
+// formatDecimal is an exact summary of strconv.FormatInt/FormatUint(v, 10) for a symbolic v: the
+// path forks on sign and digit count; the digits are fresh byte variables d_j in 0..9 with
+// sum d_j*10^j = |v| (a unique solution, so nothing is over-approximated; no division).
+func (m *Machine) formatDecimal(vv, basev value, signed bool) value {
+	v, ok := vv.(Scalar)
+	b, ok2 := basev.(Scalar)
+	if !ok || !ok2 || v.sym == nil || b.sym != nil || b.c != 10 {
+		return notHandled
+	}
+	t := v.sym
+	neg := false
+	mag := t
+	if signed {
+		if m.branch(tCmp("bvslt", t, tConst(64, 0))) {
+			neg = true
+			mag = tBvNeg(t)
+		}
+	}
+	k := 20
+	for d := 1; d < 20; d++ {
+		if m.branch(tCmp("bvult", mag, tConst(64, pow10[d]))) {
+			k = d
+			break
+		}
+	}
+	name := m.freshName("fmtdec")
+	sum := tConst(64, 0)
+	digits := make([]Scalar, k)
+	for j := 0; j < k; j++ {
+		d := tVar(fmt.Sprintf("%s_d%d", name, j), 8)
+		m.pc = append(m.pc, tCmp("bvule", d, tConst(8, 9)))
+		sum = tBV("bvadd", sum, tBV("bvmul", tZext(d, 64), tConst(64, pow10[j])))
+		digits[k-1-j] = fromTerm(tBV("bvadd", d, tConst(8, '0')))
+	}
+	m.pc = append(m.pc, tEq(sum, mag))
+	if k > 1 {
+		m.pc = append(m.pc, tNot(tEq(digits[0].sym, tConst(8, '0'))))
+	}
+	if k == 20 { // 10^19 <= v < 2^64 < 2*10^19: without this the sum could wrap
+		m.pc = append(m.pc, tEq(digits[0].sym, tConst(8, '1')))
+	}
+	out := digits
+	if neg {
+		out = append([]Scalar{conc(8, '-')}, digits...)
+	}
+	return &String{b: out}
+}
+
+// byteAppendSite: a synthetic call site for appends of bytes made by intrinsics.
+type byteAppendSite struct{ ssa.CallInstruction }
+
+func (byteAppendSite) Common() *ssa.CallCommon { return byteAppendCommon }
+
+var byteAppendCommon = &ssa.CallCommon{Args: []ssa.Value{ssa.NewConst(nil, types.NewSlice(types.Typ[types.Uint8]))}}
